@@ -162,7 +162,8 @@ class Check:
     # ------------------------------------------------------------------ budgets
     def budget(self, quick, thorough):
         n = quick if self.tier == "quick" else thorough
-        return int(n * self.budget_factor)
+        # VERIF_BUDGET_FACTOR: testing aid (soak runs / simulating the boost after anchor drift on a clean tree)
+        return int(n * self.budget_factor * float(os.environ.get("VERIF_BUDGET_FACTOR", "1")))
 
     def anchors(self, items):
         """items: list of (relpath, qualname).  A changed AST hash multiplies the
